@@ -191,6 +191,11 @@ pub fn run_pipeline(
         match pipe() {
             Ok(fds) => fds_capture_stdout = Some(fds),
             Err(e) => {
+                // release the pipes of the pipeline created above
+                for fds in pipes {
+                    libs::close(fds.0);
+                    libs::close(fds.1);
+                }
                 println_stderr!("cicada: pipeline2: {}", e);
                 return (false, CommandResult::error());
             }
@@ -198,6 +203,10 @@ pub fn run_pipeline(
         match pipe() {
             Ok(fds) => fds_capture_stderr = Some(fds),
             Err(e) => {
+                for fds in pipes {
+                    libs::close(fds.0);
+                    libs::close(fds.1);
+                }
                 if let Some(fds) = fds_capture_stdout {
                     libs::close(fds.0);
                     libs::close(fds.1);
